@@ -2,3 +2,6 @@
 import NemoVerif.Py.Val
 import NemoVerif.Theorems.C04
 import NemoVerif.Drive.C04
+import NemoVerif.Py.Str
+import NemoVerif.Theorems.C17
+import NemoVerif.Drive.C17
